@@ -168,6 +168,9 @@ def real_pool_runs(n, seed):
                                hash_fail_p=0.25, modes=MODES)
         if any(nd.get('is_rec') for nd in spec['nodes']):
             continue        # bodies in real pools are stateless: they cannot ask for another iteration
+        # a build_node-derived class lives in the engine's own module namespace of the process that created it: a pool worker
+        # forked earlier cannot unpickle it (an artefact of creating classes after the pool, not of the engine)
+        spec['nodes'][spec['input']].pop('generic_input', None)
         for nd in spec['nodes']:
             nd['delay'] = None if nd.get('delay') is None else 0
         # the module must be importable, with its bodies, in a pool worker process
